@@ -187,6 +187,9 @@ class Instance(object):
                     if c is not None:
                         with open(os.path.join(wd, fl), 'w') as f:
                             f.write(c)
+                os.makedirs(os.path.join(wd, 'sub'), exist_ok=True)
+                with open(os.path.join(wd, 'sub', 'o.txt'), 'w') as f:
+                    f.write('sub')
 
     def close(self):
         shutil.rmtree(self.tmp, ignore_errors=True)
@@ -282,6 +285,10 @@ def gen_case(rng):
             name = rng.choice(pool)
             m = rng.choice(['ref'] * 7 + ['output'] * 2 + ['copy'])
             fil = rng.choice([None, None, None, 'o.txt', 'A', 'BA']) if m != 'output' else rng.choice(FILES[1:])
+            if m == 'ref' and rng.random() < 0.12:
+                # path-valued references whose file part is not normalised: the value is the producer directory
+                # joined with the file part AS WRITTEN (trailing separator, './' segments kept)
+                fil = rng.choice(['sub/', 'sub/./o.txt', 'sub//o.txt'])
             r = mk_ref(st, name, fil, m, stage, rng)
         key = r_abs(r)
         if key in seen:
